@@ -95,6 +95,22 @@ CLAIMED = {
         "ref": "7/C03", "axioms": "none",
         "note_extra": "As the property is worded, a response is accepted on its id alone: the right id from another source is accepted (token filed under the forger's handle) - inside the property.",
     },
+    "C11": {
+        "text": "Proved (props/C11.v, 19 theorems, for every list of events - datagrams, timers, searches, re-bootstraps): "
+                "c11_refresh_alive - once the first bootstrap has completed, in every later state exactly one table-refresh timer entry "
+                "is pending, it is the remembered one, and its deadline is at most 6 s after the last handled event (the chain never dies; "
+                "with C18: never multiplies); c11_alive_step / c11_aux_step are the per-event invariants; c11_round_picks / "
+                "c11_round_outputs / c11_round_cursor - a round sends exactly one find_node to each of the first 4 questionable, not "
+                "recently queried contacts of the enumeration around the cursor's target, marks them queried, advances the cursor; "
+                "c11_answer_applied / c11_answer_makes_good - a refresh answer re-admits the responder as good; c11_two_unanswered_bad / "
+                "c11_silent_stays_bad / c11_bad_not_listed - two unanswered queries to a stale contact make it bad and bad contacts are "
+                "in no enumeration (contacts, find_node answers). Decided per run (partial): the timed statements - on runs of 45 min .. 8 h "
+                "of the real node with 1..8 scripted contacts (always answering / silent from t, named by others until t'), load_contacts "
+                "sampled every 5 s and find_node probes every 60 s: never lost once admitted, questionable < 30 s, absent after max(silent "
+                "+ 20 min, last naming + 5 min); runs up to 5000 handler events are replayed through the Coq model.",
+        "ref": "7/C11", "axioms": "none",
+        "note_extra": "PARTIAL: the 30 s / 20 min / 5 min bounds over unbounded runs are decided on the explored runs; the theorems give the mechanism (chain alive, per-round picks, ageing). One-way latency <= 200 ms in the runs.",
+    },
     "C12": {
         "text": "Theorems (props/C12.v): c12_query_adds_nobody - for every state and query the set of (id,address) pairs in the routing "
                 "table is unchanged by handling it; c12_unsolicited_noop / c12_wrong_length_id - a response whose id is not 8 bytes or "
@@ -194,7 +210,10 @@ CLAIMED = {
                 "c09_enumeration_all_histories: hence on every table reachable by any operation history. Tie: the real iterator's exact "
                 "output order is compared with the model on tables built by long random histories (1..150+ buckets) for targets = local "
                 "id, single-bit flips, known ids, random; c09_ok on the real dumps also checks that nodes sharing a longer prefix with "
-                "the target than the local id come first. The take-8-per-family clause is part of the handler model (C05).",
+                "the target than the local id come first. Reply lists (handler part): c09_reply_distinct - the nodes/nodes6 lists of a "
+                "find_node/get_peers reply hold pairwise distinct contacts, each a live table entry, never the node's own id; "
+                "c09_reply_count - exactly min(8, live nodes of the family) of them; c09_nearest_bucket_first - the enumeration begins with "
+                "the live nodes of the bucket the target falls into.",
         "ref": "7/C09", "axioms": "none", "note_extra": "",
     },
     "C10": {
